@@ -475,12 +475,12 @@ func init() {
 			return append(out, c.C.List...)
 		},
 		Floors: []Floor{
-			floorKey("runner path rules", 6, "PATH/(*Exclusive).call$1/"),
+			floorKey("runner path rules", 6, "PATH/(*Exclusive).call$go1/"),
 			floorRule("B", "B", 4),
 			floorRule("HO", "HO", 1),
-			floorKey("S running", 1, "S/(*Exclusive).call$1", "exclusiveItem.running"),
+			floorKey("S running", 1, "S/(*Exclusive).call$go1", "exclusiveItem.running"),
 			floorKey("lock provenance", 2, "PROV/", "an item's mutex"),
-			floorKey("map update under item mutex", 1, "REQ/(*Exclusive).call$1/"),
+			floorKey("map update under item mutex", 1, "REQ/(*Exclusive).call$go1/"),
 		},
 	})
 	register(&Prop{
@@ -509,9 +509,9 @@ func init() {
 		Floors: []Floor{
 			floorKey("attach discipline", 3, "PATH/(*Exclusive).call/"),
 			floorRule("ONCE", "ONCE", 3),
-			floorKey("forced resolve", 1, "PATH/(*Exclusive).call$1/resolve is forced"),
+			floorKey("forced resolve", 1, "PATH/(*Exclusive).call$go1/resolve is forced"),
 			floorKey("AT validate->attach", 3, "AT/(*Exclusive).call/"),
-			floorKey("delete", 1, "PATH/(*Exclusive).call$1/", "deleted only if"),
+			floorKey("delete", 1, "PATH/(*Exclusive).call$go1/", "deleted only if"),
 		},
 	})
 }
